@@ -421,6 +421,9 @@ class XG(object):
         r = self.r
         x = r.random()
         if depth <= 0 or x < 0.35:
+            nsn = self.vars_of(sc, 'numset')
+            if nsn and r.random() < 0.6:
+                return r.choice(['%s * 2', 'number(%s)', '%s + 1', 'round(%s)', 'sum(%s)']) % ('$' + r.choice(nsn))
             nv = self.vars_of(sc, 'number')
             if nv and r.random() < 0.4:
                 return '$' + r.choice(nv)
@@ -662,6 +665,10 @@ class StyleGen(object):
                 name = r.choice(gl)              # a local variable may shadow a global one
             self.local_used.add(name)
         x = r.random()
+        if x < 0.08:
+            # a node-set of attribute nodes with numeric values, to be used as a NUMBER (re-bound for every node of a for-each: the
+            # object that holds the node-set is recycled, its cached conversions must not be)
+            return '<xsl:%s name="%s" select="%s"/>' % (tag, name, r.choice(['@n', '*/@n', '../@n', 'descendant-or-self::*/@n'])), (name, 'numset')
         if x < 0.6:
             e, t = self.x.typed(sc, 2)
             return '<xsl:%s name="%s" select="%s"/>' % (tag, name, e), (name, t)
